@@ -8,7 +8,7 @@
    in this model. *)
 From CV Require Import Promise.Promise Promise.PromiseProofs Promise.PromiseStepProofs Promise.MuProofs
   Promise.PromiseTheorems Promise.PromiseLive Promise.PromiseProxies Promise.PromiseJoin Promise.PromiseJoinProofs Promise.PromiseJoinThms Promise.PromiseJoinInv Promise.PromiseJoinRefs Promise.PromiseJoinForest Promise.PromiseJoinDest Promise.PromiseJoinChain Promise.PromiseJoinLive Promise.PromiseJoinStuck Promise.PromiseJoinZero Promise.PromiseJoinHook Promise.PromiseJoinPath
-  Promise.PromiseJoinHookStuck Promise.PromiseJoinLands Promise.PromiseJoinRel.
+  Promise.PromiseJoinHookStuck Promise.PromiseJoinLands Promise.PromiseJoinRel Promise.PromiseJoinIdem.
 Open Scope Z_scope.
 
 (* the promise resolves at most once; Fulfill/Reject after the first one panics (OPanic), the
@@ -380,6 +380,23 @@ Theorem C11_join_proxy_clients_resolved_and_released : forall v np ops c,
      jx_rel (getx c x) = true).
 Proof. exact join_proxy_clients_resolved_and_released. Qed.
 Print Assumptions C11_join_proxy_clients_resolved_and_released.
+
+(* client_idempotent on chains ("same proxy" part; the mu part is C11_join_mu_discipline): Future.Client calls for
+   the same path that ended their traversal at the same promise returned the same proxy, as long as that promise is
+   still unresolved.  Across a Join the code itself hands out the proxy of the promise joined onto (the row of a path
+   then holds both promises' proxies and Client() returns the first; both resolve to the same capability by
+   C11_join_proxy_clients_resolved_and_released), so the single-promise statement does not carry over literally. *)
+Theorem C11_join_client_idempotent : forall v np ops c,
+  jv_alloc_table v = true -> jreach v np ops c ->
+  forall t1 t2 th1 th2 k1 k2 q s1 s2 x1 x2,
+    nth_error (jthreads c) t1 = Some th1 -> nth_error (jthreads c) t2 = Some th2 ->
+    j_op th1 = JClient k1 q s1 -> j_op th2 = JClient k2 q s2 ->
+    j_pc th1 = QDone -> j_pc th2 = QDone ->
+    j_out th1 = OHandle (HProxy x1) -> j_out th2 = OHandle (HProxy x2) ->
+    j_cur th1 = j_cur th2 -> p_caller (getp c (j_cur th1)) = true ->
+    x1 = x2.
+Proof. exact join_client_idempotent. Qed.
+Print Assumptions C11_join_client_idempotent.
 
 (* the premises are satisfiable together: the variant of the code as it is, and an ordered history with two Joins
    that runs to a configuration where every operation has finished *)
